@@ -376,6 +376,7 @@ pub fn c14_worlds(tier: Tier) -> Vec<WorldSpec> {
         Op::Concat(2),
         Op::Concat(3),
         Op::Flatten,
+        Op::Net("concat2(fi,fi)"),
     ];
     let b = |o: Op| Box::new(o);
     ops.extend([
